@@ -330,6 +330,80 @@ def stress(kind, rng, counters, violations, digests, samples):
         samples.append({"stress": kind, "sizes": sizes, "wall_s": round(time.time() - t0, 2)})
 
 
+def shared_mutable_cases(rng, counters, violations):
+    """In-place updates through a reference on a location that holds a MUTABLE value (list, numpy array, dict, set,
+    bytearray) which another location (of the same or of ANOTHER manager) holds too -- the same object, e.g. a shared
+    default.  `ref[p] op= k` assigns p the value `old op k`; every other location still holds the last value assigned
+    to it, and the expressions defined on those locations still hold their value on the current contents."""
+    import copy
+    import operator
+    import numpy as np
+    import xdeps
+    kinds = {
+        "list": (lambda: [1.0, 2.0], [("add", [3.0]), ("mul", 2)]),
+        "float-array": (lambda: np.array([1.0, 2.0, 4.0]), [("add", 0.5), ("mul", 3), ("truediv", 2), ("sub", np.array([1.0, 1.0, 1.0])), ("pow", 2)]),
+        "int-array": (lambda: np.array([1, 2, 3]), [("add", 0.5), ("truediv", 2), ("mul", 3), ("floordiv", 2), ("lshift", 1), ("and_", 1), ("or_", 4), ("xor", 1), ("mod", 2)]),
+        "0-d-array": (lambda: np.array(7), [("truediv", 2), ("add", 1), ("mul", 0.5)]),
+        "2-d-array": (lambda: np.eye(2), [("matmul", np.array([[0.0, 1.0], [1.0, 0.0]])), ("add", 1.0)]),
+        "dict": (lambda: {"a": 1}, [("or_", {"b": 2})]),
+        "set": (lambda: {1, 2}, [("or_", {3}), ("and_", {1}), ("sub", {2}), ("xor", {2, 5})]),
+        "bytearray": (lambda: bytearray(b"ab"), [("add", b"c"), ("mul", 2)]),
+    }
+    AUG = {"add": "__iadd__", "mul": "__imul__", "truediv": "__itruediv__", "sub": "__isub__", "pow": "__ipow__", "floordiv": "__ifloordiv__",
+           "lshift": "__ilshift__", "and_": "__iand__", "or_": "__ior__", "xor": "__ixor__", "mod": "__imod__", "matmul": "__imatmul__"}
+
+    def same(a, b):
+        if isinstance(a, np.ndarray) or isinstance(b, np.ndarray):
+            return isinstance(a, np.ndarray) and isinstance(b, np.ndarray) and a.dtype == b.dtype and a.shape == b.shape and bool(np.all(a == b))
+        return type(a) is type(b) and a == b
+
+    for kind, (mk, ops) in kinds.items():
+        for opname, k in ops:
+            for two_managers in (False, True):
+                obj = mk()
+                snap = copy.deepcopy(obj)
+                m1 = xdeps.Manager()
+                d1 = {"p": None, "q": None, "e": None}
+                r1 = m1.ref(d1, "r")
+                if two_managers:
+                    m2 = xdeps.Manager()
+                    d2 = {"q": None, "e": None}
+                    r2 = m2.ref(d2, "s")
+                else:
+                    d2, r2 = d1, r1
+                r1["p"] = obj
+                r2["q"] = obj                       # the same object, assigned through a reference
+                seq = kind in ("list", "bytearray")
+                try:
+                    r2["e"] = (r2["q"] * 2) if kind not in ("dict", "set") else (r2["q"] | r2["q"])
+                    want_e = (copy.deepcopy(snap) * 2) if kind not in ("dict", "set") else (snap | snap)
+                    want_p = getattr(operator, opname)(copy.deepcopy(snap), copy.deepcopy(k))      # `old op k`, computed on copies
+                except Exception:
+                    counters["shared_mutable_cases_skipped"] = counters.get("shared_mutable_cases_skipped", 0) + 1
+                    continue
+                case = "%s %s= %r, %s" % (kind, opname, k, "two managers" if two_managers else "one manager")
+                counters["shared_mutable_cases"] = counters.get("shared_mutable_cases", 0) + 1
+                try:
+                    # what `r1['p'] op= k` does: the reference's in-place method returns the new right-hand side, which is assigned
+                    r1["p"] = getattr(r1["p"], AUG[opname])(k)
+                except Exception as exc:
+                    violations.append({"what": "C01 shared mutable value, %s: the in-place update raised %s: %s (Python computes old %s k = %r)" % (
+                        case, type(exc).__name__, str(exc)[:120], opname, want_p)})
+                    continue
+                bad = []
+                if not same(d1["p"], want_p):
+                    bad.append("p holds %r, expected old %s k = %r" % (d1["p"], opname, want_p))
+                if not same(d2["q"], snap):
+                    bad.append("q (never assigned since) holds %r, the last value assigned to it is %r" % (d2["q"], snap))
+                if not same(d2["e"], want_e):
+                    bad.append("e = f(q) holds %r, its definition on the last value assigned to q gives %r" % (d2["e"], want_e))
+                cur_e = (d2["q"] * 2) if kind not in ("dict", "set") else (d2["q"] | d2["q"])
+                if not same(d2["e"], cur_e):
+                    bad.append("e = f(q) holds %r, its definition evaluated on the CURRENT contents gives %r" % (d2["e"], cur_e))
+                if bad:
+                    violations.append({"what": "C01 shared mutable value, %s: %s" % (case, "; ".join(bad[:3]))})
+
+
 def run_shard(spec):
     rng = random.Random("C01:%s:%s" % (spec["seed"], spec["shard"]))
     mgrmon.install_reach_counters()
@@ -352,6 +426,7 @@ def run_shard(spec):
             counters["regression_cases"] = counters.get("regression_cases", 0) + 1
             if f:
                 violations.append({"what": "C01 regression %s: %s" % (name, f), "world": witness_world(), "ops": ops, "failure": f})
+        shared_mutable_cases(rng, counters, violations)
         if kf.is_open("KF1", ID):
             run_witness("KF1", KF1_WITNESS, "KF1", known, counters, violations)
         if kf.is_open("KF5", ID):
